@@ -1394,7 +1394,9 @@ func (p *parser) parseLitMatcher(lit *litMatcher) (any, bool) {
 		if lit.ignoreCase {
 			cur = unicode.ToLower(cur)
 		}
-		if cur != want {
+		if cur != want || (p.pt.rn == utf8.RuneError && p.pt.w == 0) {
+			// (the end of input is utf8.RuneError with width 0: it never matches,
+			// not even a literal that contains U+FFFD)
 			p.failAt(false, start.position, lit.want)
 			p.restore(start)
 			return nil, false
